@@ -72,7 +72,7 @@ LEVEL_NOTE = ("Trusted: Lean kernel, harness + watchdog, the python framing pars
               "coding is `chunked`, ASCII case-insensitively (fix 7dcf721; String::toLowerCase is UTF-8 aware, the model ASCII: values "
               "with bytes >= 0x80 are not generated); a request with a Transfer-Encoding whose last coding is not chunked (gzip, `chunked, gzip`, xchunked, empty) is "
               "dropped, the connection closed (4dff910, theorem dispatch_requires_framed_transfer_encoding); gzip/deflate codings before chunked are not decoded. "
-              "A header line whose name is empty or holds a blank/tab/control character (`Content-Length : 5`) ends the block like a line without colon, the connection is closed (9bf376e). "
+              "A header line whose name is empty or holds a blank/tab/control character (`Content-Length : 5`) ends the block like a line without colon, the connection is closed (9bf376e); so does a line that starts with white space before any field was read (c2e6d14). "
               "Repeated header fields keep the last value (single-valued Dic interface; outside_findings.txt): the oracle gives no opinion on streams that repeat Content-Length/Transfer-Encoding. Folded header lines are joined to the "
               "field value with one space (350c8ee) and received empty values are kept (988a64d); query tokens without `=` are "
               "dropped by Url::parseQuery by design (outside_findings.txt). Chunk framing is validated (4dbedbe, d0ace7d): size lines are 1-8 hex digits (<= 0x7fffffff) + blanks/;ext, each chunk must "
@@ -470,6 +470,16 @@ def gen(rng, tier):
         for val, body in [(b"5", b"hello" + smug), (b"chunked", b"5\r\nhello\r\n0\r\n\r\n" + smug)]:
             for first in (b"Host: x\r\n", b""):
                 x = b"POST /ws HTTP/1.1\r\n" + first + nm + b": " + val + b"\r\n\r\n" + body
+                c.append("srv " + hexs(x))
+                c.append("req " + hexs(x))
+                st["req_mutated"] += 1
+                st["srv_streams"] += 1
+    # a first header line that starts with white space continues nothing: not stored (under the empty name), not dispatched
+    for lead in [b" ", b"\t", b"  ", b"\x0b", b"\x0c", b"\r", b" \t"]:
+        for fld, body in [(b"Content-Length: 5", b"hello" + smug), (b"Transfer-Encoding: chunked", b"5\r\nhello\r\n0\r\n\r\n" + smug),
+                          (b"X-A: 1", smug), (b"", smug), (b"Transfer-Encoding: chunked\r\n more", b"5\r\nhello\r\n0\r\n\r\n" + smug)]:
+            for after in (b"Host: x\r\n", b""):
+                x = b"POST /lead HTTP/1.1\r\n" + lead + fld + b"\r\n" + after + b"\r\n" + body
                 c.append("srv " + hexs(x))
                 c.append("req " + hexs(x))
                 st["req_mutated"] += 1
@@ -972,7 +982,10 @@ def _frame(s):
         if l[:1] in _WS0:
             # obs-fold: the line continues the previous field, joined with one space (RFC 7230 3.2.4)
             if not fields:
-                return None
+                # white space between the start line and the first field: the recipient must reject the message or skip
+                # the line unprocessed (RFC 7230 3); the library rejects (c2e6d14), storing the line as a field is neither.
+                # A line of white space alone stores nothing either way: no opinion
+                return "incomplete" if l.strip(b" \t\r\n\x0b\x0c") else None
             more = l.strip(b" \t\r\n")
             if more:
                 n0, v0 = fields[-1]
